@@ -261,7 +261,7 @@ fn build_out(p: &Value) -> Option<(vc::OutPacket, bool, Option<u16>)> {
     }
 }
 
-fn capacity_sequences(rng: &mut StdRng) -> Vec<Vec<(usize, usize)>> {
+fn capacity_sequences(rng: &mut StdRng, extra: &[Vec<(usize, usize)>]) -> Vec<Vec<(usize, usize)>> {
     let mut out = vec![vec![(0usize, 1usize << 22)], vec![(0, 5)], vec![(0, 7)], vec![(0, 4)], vec![(0, 9)], vec![(0, 16)], vec![(0, 64)], vec![(0, 4096)],
                        vec![(0, 5), (0, 4096)], vec![(3, 8), (0, 6), (1, 9), (0, 4096)], vec![(4090, 4096), (0, 4096)]];
     for _ in 0..4 {
@@ -270,6 +270,8 @@ fn capacity_sequences(rng: &mut StdRng) -> Vec<Vec<(usize, usize)>> {
         s.push((0, rng.gen_range(4..300)));
         out.push(s);
     }
+    // capacity sequences exported by TLC from EncoderSteps.tla (the last entry repeats until the packet is complete)
+    for e in extra { if !out.contains(e) { out.push(e.clone()); } }
     out
 }
 
@@ -284,7 +286,18 @@ fn main() {
     let mut rng = StdRng::seed_from_u64(seed);
     let mut tr = Trace::new();
     tr.begin_run(1);
-    tr.emit("Cfg", vec![("src", json!("codec")), ("seed", json!(seed))]);
+    tr.emit("Cfg", vec![("src", json!("codec")), ("seed", json!(seed)), ("ver", json!(5))]);
+    let mut extra_caps: Vec<Vec<(usize, usize)>> = Vec::new();
+    if let Some(path) = arg(&args, "--caps") {
+        let f = std::fs::File::open(&path).expect("caps file");
+        for line in std::io::BufReader::new(f).lines() {
+            let line = line.unwrap();
+            if line.trim().is_empty() { continue; }
+            let c: Value = serde_json::from_str(&line).expect("caps json");
+            let seq: Vec<(usize, usize)> = c["caps"].as_array().unwrap().iter().map(|x| (x[0].as_u64().unwrap() as usize, x[1].as_u64().unwrap() as usize)).collect();
+            if !seq.is_empty() && !extra_caps.contains(&seq) { extra_caps.push(seq); }
+        }
+    }
     let mut n_cases = 0u64; let mut ref_disagreements: Vec<String> = Vec::new(); let mut inexpressible = 0u64;
     let mut legal_in: Vec<(Vec<u8>, bool, Packet)> = Vec::new();
 
@@ -330,7 +343,7 @@ fn main() {
                 let ref_exact = re == bytes;
                 let Some((packet, skip_topic, alias)) = build_out(p) else { inexpressible += 1; continue; };
                 let mut outputs: Vec<Vec<u8>> = Vec::new(); let mut err = String::new(); let mut panics = 0u64;
-                for caps in capacity_sequences(&mut rng) {
+                for caps in capacity_sequences(&mut rng, &extra_caps) {
                     let r = std::panic::catch_unwind(std::panic::AssertUnwindSafe(|| vc::encode(&packet, v5, skip_topic, alias, &caps)));
                     match r {
                         Ok(Ok(chunks)) => { let all: Vec<u8> = chunks.concat(); if !outputs.contains(&all) { outputs.push(all); } }
@@ -402,6 +415,26 @@ fn main() {
         }
     }
 
+    // topic names and filters enumerated from Validation.tla, put to the crate's validators
+    let mut n_filters = 0u64;
+    if let Some(path) = arg(&args, "--filters") {
+        let f = std::fs::File::open(&path).expect("filters file");
+        for line in std::io::BufReader::new(f).lines() {
+            let line = line.unwrap();
+            if line.trim().is_empty() { continue; }
+            let c: Value = serde_json::from_str(&line).expect("filter json");
+            let text: String = c["tokens"].as_array().unwrap().iter().map(|t| t.as_str().unwrap()).collect::<Vec<_>>().concat();
+            let r = std::panic::catch_unwind(|| { let (v, sh, w) = gneiss_mqtt::verif::validate::topic_filter_properties(&text); (v, sh, w, gneiss_mqtt::verif::validate::is_valid_topic(&text)) });
+            match r {
+                Ok((valid, shared, wild, topic_ok)) => tr.emit("Flt", vec![("text", json!(text)), ("specTopic", json!(c["topicValid"].as_bool().unwrap() as u8)), ("specValid", json!(c["filterValid"].as_bool().unwrap() as u8)),
+                    ("specShared", json!(c["shared"].as_bool().unwrap() as u8)), ("specWild", json!(c["wild"].as_bool().unwrap() as u8)),
+                    ("codeTopic", json!(topic_ok as u8)), ("codeValid", json!(valid as u8)), ("codeShared", json!((valid && shared) as u8)), ("codeWild", json!((valid && wild) as u8))]),
+                Err(_) => tr.emit("Panic", vec![("where", json!("topic validation")), ("text", json!(text))]),
+            }
+            n_filters += 1;
+        }
+    }
+
     // streams of several packets (framing across packet boundaries under every chunking)
     let mut n_streams = 0u64;
     if legal_in.len() >= 2 {
@@ -438,5 +471,5 @@ fn main() {
 
     tr.write_to(&out).expect("write trace");
     let mut so = std::io::stdout();
-    writeln!(so, "{}", json!({"cases": n_cases, "streams": n_streams, "mutations": n_mut, "events": tr.lines.len(), "reference_disagreements": ref_disagreements, "inexpressible": inexpressible, "framing": n_framing, "framing_drift": framing_drift})).unwrap();
+    writeln!(so, "{}", json!({"cases": n_cases, "streams": n_streams, "mutations": n_mut, "events": tr.lines.len(), "reference_disagreements": ref_disagreements, "inexpressible": inexpressible, "framing": n_framing, "framing_drift": framing_drift, "filters": n_filters, "capacity_sequences_from_tlc": extra_caps.len()})).unwrap();
 }
